@@ -118,7 +118,8 @@ def record(job):
         for chars, pat, keep in _LOSSES:
             lost = sum(toff.count(c) for c in chars) - sum(ton.count(c) for c in chars)
             rw.append([lost, sum(max(0, len(m) - keep) for m in pat.findall(lit))])
-    q = mon.options["quotes"]
+    # the quote strings as CONFIGURED (not as the instance reports them after storing the option)
+    q = gen.QUOTES[quotes] if quotes != "default" else "\u201c\u201d\u2018\u2019"
     return {"rw": rw, "sq": 0 if mode == "rp" else 1, "rp": 0 if mode == "sq" else 1, "q": [C.cps(q[x]) for x in range(4)],
             "toks": toks, "non": len(fon) if len(fon) == len(foff) else -1}, sum(1 for a, b in zip(foff, fon) if a[3] != b[3])
 
